@@ -766,8 +766,8 @@ Proof.
   induction f as [|f IH]; intros s Hc; cbn [pump]; [lia|]. rewrite Hc, sendq_take.
   destruct (sendq s) as [|c rest] eqn:Eq; [lia|].
   destruct (stalls c) eqn:Es.
-  - etransitivity; [apply IH; reflexivity|]. unfold smeasure. cbn [cur sendq]. rewrite Hc, Eq. cbn [map list_sum]. lia.
-  - unfold smeasure. cbn [cur sendq]. rewrite Hc, Eq. cbn [map list_sum]. rewrite Es. lia.
+  - etransitivity; [apply IH; reflexivity|]. unfold smeasure. cbn [cur sendq]. rewrite Hc, Eq. unfold list_sum. cbn [map fold_right]. lia.
+  - unfold smeasure. cbn [cur sendq]. rewrite Hc, Eq. unfold list_sum. cbn [map fold_right]. rewrite Es. lia.
 Qed.
 
 Lemma release_measure s p : cur s = Some p -> smeasure (release s) < smeasure s.
@@ -793,7 +793,11 @@ Proof.
 Qed.
 
 Lemma deliver_sender s : cur (deliver s) = cur s /\ sendq (deliver s) = sendq s /\ wire (deliver s) = tl (wire s).
-Proof. unfold deliver. destruct (wire s) as [|c w]; [auto|]. destruct (cfate c); auto. Qed.
+Proof.
+  unfold deliver. destruct (wire s) as [|c0 w] eqn:Ew.
+  - rewrite Ew. repeat split; reflexivity.
+  - destruct (cfate c0); cbn [cur sendq wire tl]; repeat split; reflexivity.
+Qed.
 
 Lemma drain_wire : forall n s, List.length (wire s) <= n -> cur s = None -> sendq s = [] ->
   exists k, let s' := fold_left step (repeat Deliver k) s in cur s' = None /\ sendq s' = [] /\ wire s' = [].
@@ -877,13 +881,13 @@ Proof.
       { pose proof (turn_measure s Ew Hi He). lia. }
       { eapply effs_preserves; [apply (step_effs s Turn I) | exact I]. }
       { apply (step_rinv s Turn R). }
-      exists (Turn :: more). cbn [fold_left step]. split; [constructor; [exact I0|exact Hf]|].
+      exists (Turn :: more). cbn [fold_left step]. split; [constructor; [cbn; trivial | exact Hf]|].
       split; [exact H1|]. split; [exact H2|]. rewrite H3. unfold turn. rewrite thunks_sw. reflexivity.
     + destruct (IH (gift_ready (cid x) true s)) as (more & Hf & H1 & H2 & H3).
       { pose proof (gift_measure s x Ew). lia. }
       { eapply effs_preserves; [apply (step_effs s (GiftReady (cid x) true) I) | exact I]. }
       { apply (step_rinv s (GiftReady (cid x) true) R). }
-      exists (GiftReady (cid x) true :: more). cbn [fold_left step]. split; [constructor; [exact I0|exact Hf]|].
+      exists (GiftReady (cid x) true :: more). cbn [fold_left step]. split; [constructor; [cbn; trivial | exact Hf]|].
       split; [exact H1|]. split; [exact H2|]. rewrite H3.
       unfold gift_ready. rewrite Ew. cbn [find]. rewrite Nat.eqb_refl. reflexivity.
 Qed.
@@ -910,6 +914,25 @@ Proof.
   - unfold run. rewrite !fold_left_app. fold (run ops). fold s0. fold s1. fold s2.
     unfold pipeline, inq_ids, upstream, cur_ids. rewrite Hi, Hw.
     unfold sw_part in Hsw. inversion Hsw as [[E1 E2 E3]]. rewrite E1, E2, E3, Hc2, Hq2, Hw2. reflexivity.
+Qed.
+
+Lemma count_issues_app a b : count_issues (a ++ b) = count_issues a + count_issues b.
+Proof. unfold count_issues. rewrite filter_app, app_length. reflexivity. Qed.
+
+(* every issued call can still be brought to a conclusion: entered, or explicitly refused *)
+Theorem eventually_entered_or_refused ops :
+  exists more, Forall settle_op more /\
+    forall c, c < count_issues ops ->
+      In c (entered (run (ops ++ more))) \/ In (Failed c) (history (run (ops ++ more))) \/
+      In (Rejected c) (history (run (ops ++ more))).
+Proof.
+  destruct (can_always_settle ops) as (more & Hf & Hp). exists more. split; [exact Hf|].
+  intros c Hc.
+  destruct (no_silent_loss (ops ++ more) c) as [H|[H|H]].
+  - unfold run. rewrite run_from_next, count_issues_app. cbn [next_id init]. lia.
+  - left; exact H.
+  - rewrite Hp in H. destruct H.
+  - right; exact H.
 Qed.
 
 (* ------------------------------------------------------------------ *)
